@@ -8,6 +8,7 @@ import (
 	"go/token"
 	"go/types"
 	"strings"
+	"time"
 
 	"golang.org/x/tools/go/ssa"
 	"golang.org/x/tools/go/types/typeutil"
@@ -52,9 +53,9 @@ type frame struct {
 }
 
 type funcInfo struct {
-	idx   map[ssa.Value]int
-	n     int
-	pure  int // 0 unknown, 1 summarizable, 2 not
+	idx  map[ssa.Value]int
+	n    int
+	pure int // 0 unknown, 1 summarizable, 2 not
 }
 
 type Shared struct {
@@ -71,25 +72,30 @@ type Worker struct {
 	ts     *TermStore
 	solver *Solver
 
-	globals   map[*ssa.Global]*Value
-	finfo     map[*ssa.Function]*funcInfo
-	rtCache   map[types.Type]*RType
-	rtMap     typeutil.Map
-	rtNext    int
+	globals      map[*ssa.Global]*Value
+	finfo        map[*ssa.Function]*funcInfo
+	rtCache      map[types.Type]*RType
+	rtMap        typeutil.Map
+	rtNext       int
 	rtRuntimeErr *RType
-	methCache map[methKey]*ssa.Function
-	implCache map[implKey]bool
-	constCache map[*ssa.Const]Value
-	intrCache map[*ssa.Function]intrEntry
-	globalSnap string
+	methCache    map[methKey]*ssa.Function
+	implCache    map[implKey]bool
+	constCache   map[*ssa.Const]Value
+	intrCache    map[*ssa.Function]intrEntry
+	globalSnap   string
 
 	p *Path // current path
 
 	ex *Explorer
 
-	depth int
-	funcsExecuted map[*ssa.Function]int64
-	inInit bool
+	depth            int
+	funcsExecuted    map[*ssa.Function]int64
+	inInit           bool
+	fastOne, fastTwo int64
+	solverBase       struct {
+		sat, unsat, unknown int
+		t                   time.Duration
+	}
 }
 
 type methKey struct {
@@ -369,7 +375,7 @@ func (w *Worker) callSSA2(caller *frame, pos token.Pos, fn *ssa.Function, args [
 	if fn.Blocks == nil {
 		unsupported("call to function without body: %s", fn.String())
 	}
-	if w.p != nil && w.p.cutAt != nil && w.p.cutAt[fn.String()] {
+	if w.p != nil && w.p.cutAt != nil && !w.p.cutOff && w.p.cutAt[fn.String()] {
 		panic(pathEnd{kind: "assume", label: "cut:" + fn.String()})
 	}
 	if fn.TypeParams().Len() > 0 && len(fn.TypeArgs()) == 0 {
